@@ -16,7 +16,7 @@ VERIF = os.path.dirname(os.path.dirname(os.path.abspath(__file__)))
 ENV = dict(os.environ, GOFLAGS="-mod=mod", GOPROXY="off", GOSUMDB="off", GOTOOLCHAIN="local")
 PKGDIR = {"sm2": "sm2", "sm2_test": "sm2", "internal": "sm2/internal", "internal_test": "sm2/internal", "fiat_test": "sm2/internal/fiat", "fiat": "sm2/internal/fiat",
           "sm3": "sm3", "sm3_test": "sm3", "sm4": "sm4", "sm4_test": "sm4", "utils": "utils", "utils_test": "utils"}
-EXTRA = {"C01": ["C02"], "C02": ["C01"], "C05": [], "C08": [], "C09": [], "C12": [], "C13": [], "C14": ["C16"], "C15": ["C16"], "C17": []}
+EXTRA = {"C01": ["C02"], "C02": ["C01"], "C05": [], "C08": [], "C09": [], "C12": [], "C13": [], "C14": ["C16"], "C15": ["C16", "C14"], "C17": []}
 
 
 def sh(cmd, cwd):
